@@ -8,6 +8,7 @@ from vlib import Broken, Verdict
 JUDGE = ("type", "content", "target", "extra", "peers")   # permissions and times are C11's; across arrangements they are still compared (peers)
 ARRS = ("pull", "push", "local", "lib", "libpush")
 OPTS = ("l", "p", "t", "dv", "sp", "c", "I", "n", "del", "o", "g")
+NOR = ("r",)    # -r is ON in the base line; its absence is the option
 
 
 def sig(o):
@@ -27,7 +28,7 @@ def check(w):
     rnd = random.Random(w.seed)
     r, cov, scen = p_recv.design_and_generate(w, "c14")
     if quick:
-        few = [s for s in scen if sum(1 for k in OPTS if s["opts"][k]) <= 2]
+        few = [s for s in scen if s["opts"]["r"] and sum(1 for k in OPTS if s["opts"][k]) <= 2] + [s for s in scen if not s["opts"]["r"] and sum(1 for k in OPTS if s["opts"][k]) <= 1]
         rest = [s for s in scen if s not in few]
         scen_run = few + rnd.sample(rest, 120)
     else:
@@ -48,7 +49,7 @@ def check(w):
                      "final": [(n["p"], n["t"]) for n in o["final"]]} for o in obs[:3]],
         "option_subsets_model_checked": len(scen), "option_subsets_run": len(scen_run), "arrangements": list(ARRS),
         "evaluations": len(obs), "distinct_nontrivial": sum(1 for o in obs if any(o["opts"].get(k) for k in OPTS)),
-        "rule": "every subset of {-l,-p,-t,--devices,--specials,-c,-I,-n,--delete,-o,-g} with and without --exclude, on a tree with a directory, files, a symlink, a fifo and a character device "
+        "rule": "every subset of {-r,-l,-p,-t,--devices,--specials,-c,-I,-n,--delete,-o,-g} with and without --exclude, on a tree with a directory, files, a symlink, a fifo and a character device "
                 "over a prior destination (different file, unlisted file), run with the real code on both ends in five arrangements (daemon pull, daemon push, local, library pull, library push); "
                 "each outcome must equal the specification's and the outcomes of the other arrangements",
         "action_coverage": cov, "negative_controls": nneg, "worker_crashes": counts.get("crashed", 0),
